@@ -75,7 +75,10 @@ def run(tier, only=None):
                       "h_gather_single_slice", "h_gather_coords"]:
                 if tier == "quick" and f == "h_gather_slice_slice":
                     continue
-                conds.append(runner.Cond(HF, f, (2 * T if f != "h_gather_slice_slice" else 4 * T), name="%s[%s,%s]" % (f, sh, kind), env=env,
+                e2 = dict(env)
+                if f == "h_gather_slice_slice":
+                    e2.update({"VERIF_KB": "2", "VERIF_SB": "1"})      # six symbolic fields: smaller ranges so that the paths can be exhausted
+                conds.append(runner.Cond(HF, f, (2 * T if f != "h_gather_slice_slice" else 6 * T), name="%s[%s,%s]" % (f, sh, kind), env=e2,
                                          key="gather-" + f[9:]))
     if only:
         conds = [c for c in conds if only in c.name]
